@@ -62,6 +62,22 @@ def c02(r):
     syncer(r, ["C02."], crash=False)
 
 
+def c03(r):
+    r.tlc_exhaustive("MCSyncer.tla", "Syncer.cfg")
+    t = r.drive("syncer", ["-arg", "adversary"], name="syncer-adversary")
+    r.tlc_validate("SyncTrace", t, ["C03."])
+    t = r.drive("syncer", name="syncer-random")
+    r.tlc_validate("SyncTrace", t, ["C03."])
+
+
+def c09(r):
+    r.tlc_exhaustive("MCRetriever.tla", "Retriever.cfg", workers=4)
+    t = r.drive("syncer", ["-arg", "retrieve"], name="syncer-retrieve")
+    r.tlc_validate("SyncTrace", t, ["C09.", "C02.Halted", "C02.Converged", "C02.AppliedWhatArrived"])
+    t = r.drive("syncer", ["-arg", "adversary"], name="syncer-adversary")
+    r.tlc_validate("SyncTrace", t, ["C09.", "C02.Halted"])
+
+
 def c05(r):
     syncer(r, ["C05.", "C02."], crash=True)
 
@@ -94,7 +110,7 @@ def c08(r):
     submitter(r, ["C08."])
 
 
-PIPELINES = {"C01": c01, "C04": c04, "C02": c02, "C05": c05, "C06": c06, "C07": c07, "C08": c08}
+PIPELINES = {"C01": c01, "C04": c04, "C02": c02, "C05": c05, "C06": c06, "C07": c07, "C08": c08, "C03": c03, "C09": c09}
 ASSUME = {}
 FINISH = {}
 
@@ -103,4 +119,4 @@ def REPLAY_MONITOR(pid, path):
     import os
     import re
     m = re.match(r"%s-([A-Za-z0-9]+)-" % pid, os.path.basename(path))
-    return m.group(1) if m else {"C01": "ProducerTrace", "C04": "ProducerTrace", "C02": "SyncTrace", "C05": "SyncTrace", "C03": "SyncTrace", "C06": "SubmitTrace", "C07": "SubmitTrace", "C08": "SubmitTrace"}[pid]
+    return m.group(1) if m else {"C01": "ProducerTrace", "C04": "ProducerTrace", "C02": "SyncTrace", "C05": "SyncTrace", "C03": "SyncTrace", "C09": "SyncTrace", "C06": "SubmitTrace", "C07": "SubmitTrace", "C08": "SubmitTrace"}[pid]
